@@ -6,7 +6,9 @@ import os
 import numpy as np
 from hypothesis import strategies as st
 
-from props.c07 import kfl_config
+from props.c07 import (OutputShape, build_kfl, format_inputs, kfl_config,
+                       spell_monotonicities)
+from vlib import oracles as R
 from vlib import strategies as S
 from vlib.harness import Outcome, TOL_MONO_F, TOL_W, scale_of
 
@@ -14,28 +16,46 @@ ID = "C10"
 TITLE = ("Freshly built layers already satisfy their monotonicity and bound "
          "constraints")
 RULE = ("Hypothesis draws a layer kind and a valid configuration. Lattice "
-        "(~45%): rank 1-4, sizes 2-4 (thorough rank <= 5, sizes <= 6), units "
-        "1-3, monotonicity subsets, unimodalities and joint unimodalities "
-        "(incl. one group covering all features), the all-unconstrained case, "
-        "bounds {none, min, max, both} incl. negative ranges, output_max <= 0 "
-        "and output_min >= 1 alone, initializer id {linear_initializer, "
+        "(~47%): rank 1-4, sizes 2-4 (thorough rank <= 5, sizes <= 6), one "
+        "unimodal / jointly unimodal dimension of 5-7 vertices in half of the "
+        "unimodal cases, units 1-3, monotonicity subsets, unimodalities and "
+        "joint unimodalities (incl. one group covering all features), the "
+        "all-unconstrained case, monotonicities / unimodalities spelled as "
+        "int lists, documented strings, tuples or mixed, bounds {none, min, "
+        "max, both} incl. negative ranges, a bound equal to 0, output_max <= "
+        "0 and output_min >= 1 alone, initializer id {linear_initializer, "
         "LinearInitializer, random_monotonic_initializer, "
-        "RandomMonotonicInitializer, default} used by name or built with an "
+        "RandomMonotonicInitializer, default (left out or named "
+        "random_uniform_or_linear_initializer / "
+        "RandomUniformOrLinearInitializer)} used by name or built with an "
         "explicit init_min/init_max through create_kernel_initializer / "
-        "LinearInitializer / RandomMonotonicInitializer, a TF/NumPy seed. "
-        "PWLCalibration (~25%): 2-8 keypoints (thorough 16), equal_heights / "
-        "equal_slopes, monotonicity -1/0/1, convexity, cyclic, clamps, "
-        "one/two-sided and zero-width bounds. KroneckerFactoredLattice (~22%): "
-        "props/c07 configurations, default or explicit initialisation range. "
-        "CategoricalCalibration (~8%): 2-6 buckets, uniform / constant, "
-        "bounds, monotonic pairs. The layer is built, its fresh weights are "
-        "compared with the float64 shape documented for the initializer, with "
-        "the layer's monotonicity and bound constraints, assert_constraints() "
-        "is called, and for monotonicity+bound-only configurations the "
-        "variable constraint must return the weights unchanged. Non-trivial: "
-        "the layer has a monotonicity, unimodality or bound constraint or an "
-        "explicit initialisation range and its fresh weights are not all "
-        "equal; distinct by SHA-1 of the case.")
+        "LinearInitializer / RandomMonotonicInitializer, a TF/NumPy seed; "
+        "shape 'mono_trust' (linear ids only) adds Edgeworth trusts, "
+        "trapezoid trusts with a non-monotone conditional dimension, range "
+        "dominances, monotonic dominances whose dominant dimension has at "
+        "most as many vertices as the weak one, and joint monotonicities "
+        "(directions as ints or 'positive'/'negative'). PWLCalibration "
+        "(~21%): 2-8 keypoints (thorough 16) with gaps from 2e-4 to 100 given "
+        "as list / tuple / float32 or float64 ndarray, fixed or "
+        "learned_interior keypoints, units 1-5, equal_heights / equal_slopes "
+        "by name or as a UniformOutputInitializer object with an explicit "
+        "range, monotonicity -1/0/1 and convexity as ints or strings, cyclic, "
+        "clamps, one/two-sided and zero-width bounds. "
+        "KroneckerFactoredLattice (~16%): props/c07 wide configurations "
+        "(lattice_sizes 2-6, dims 1-6, spellings, input formats, units "
+        "receiving different points, 1e-3 wide bounds), default or explicit "
+        "initialisation range, kernel / scale initializer ids by name, the "
+        "initializer's seed argument. CategoricalCalibration (~16%): 2-6 "
+        "buckets, uniform / constant / a Keras RandomUniform object, bounds, "
+        "up to 6 monotonic pairs as tuples or lists, default_input_value. The "
+        "layer is built, its fresh weights are compared with the float64 "
+        "shape documented for the initializer, with the layer's monotonicity, "
+        "bound and (mono_trust) trust/dominance constraints, "
+        "assert_constraints() is called, and for monotonicity+bound-only "
+        "configurations the variable constraint must return the weights "
+        "unchanged. Non-trivial: the layer has a monotonicity, unimodality or "
+        "bound constraint or an explicit initialisation range and its fresh "
+        "weights are not all equal; distinct by SHA-1 of the case.")
 NT_FLOOR = 0.6
 BUDGET = {"quick": 500, "thorough": 5000}
 ASSUMPTIONS = [
@@ -45,23 +65,34 @@ ASSUMPTIONS = [
     "'*:assert-default-eps-rounding')",
     "explicit init_min/init_max are drawn inside the layer's output bounds "
     "(KroneckerFactoredLattice: inside [0, 1] when the layer is bounded, "
-    "non-negative otherwise)",
+    "non-negative otherwise; a PWL UniformOutputInitializer object starts / "
+    "ends at a clamped bound)",
     "the Lattice default initializer's documented fallback to Keras "
     "random_uniform (one joint-unimodality group over all features) is "
     "generated; its bound violations carry the narrow signature {kind: "
     "bounds, layer: lattice, init: default, keras_random_uniform: true} "
-    "(known finding)"]
+    "(known finding)",
+    "trust / dominance configurations include three regions the lattice "
+    "initializers do not satisfy (trapezoid trust with a monotone conditional "
+    "dimension, monotonic dominance with more vertices along the dominant "
+    "dimension, any trust with the random monotonic initializer; switches "
+    "GEN_TZ_MONOTONE_COND / GEN_MDOM_LARGER_DOMINANT / GEN_TRUST_RANDOM_INIT); "
+    "their violations carry {kind: trust, initializer_ignores_constraint: "
+    "true} (known finding F-C10-5), any other trust violation of a fresh "
+    "kernel has that flag false and is reported"]
 TECHNIQUE = ("property-based testing (Hypothesis): generated layer "
              "configurations, initializers and seeds against float64 shape "
              "references written from the initializer documentation")
 LEVEL_TEXT = ("Generated-input exploration of layer construction: thousands of "
               "valid Lattice / PWLCalibration / KroneckerFactoredLattice / "
-              "CategoricalCalibration configurations, initializer ids, explicit "
+              "CategoricalCalibration configurations, hyper-parameter "
+              "spellings, initializer ids and objects, explicit "
               "initialisation ranges and random seeds per run; the fresh "
               "weights of the real layer are compared clause by clause with "
-              "the documented initial shape, with the layer's monotonicity and "
-              "bound constraints, with the layer's own assert_constraints() and "
-              "with the variable constraint (identity on the initial kernel). "
+              "the documented initial shape, with the layer's monotonicity, "
+              "bound and trust constraints (float64 inequality rows), with "
+              "the layer's own assert_constraints() and with the variable "
+              "constraint (identity on the initial kernel). "
               "KroneckerFactoredLattice is judged as a function on the full "
               "half-integer grid. Cannot show absence.")
 LEVEL_NOTE = ("Tolerance 2e-5*S (S=max(1,|weights|,|bounds|)) for weight "
@@ -83,6 +114,38 @@ OMAX_POOL = [-10.0, -1.5, 0.0, 0.25, 1.0, 7.0, 100.0]
 WIDTHS = [0.5, 1.0, 3.0, 1000.0]
 LINEAR_IDS = ("linear_initializer", "LinearInitializer")
 RANDOM_IDS = ("random_monotonic_initializer", "RandomMonotonicInitializer")
+# documented spellings of the hyper-parameters (the int spelling is the
+# historical one)
+VEC_SPELLS = ["ints", "ints", "strings", "tuple", "mixed"]
+DEFAULT_ID_SPELLS = ["omit", "omit", "random_uniform_or_linear_initializer",
+                     "RandomUniformOrLinearInitializer"]
+MONO_WORD = {1: "increasing", 0: "none", -1: "decreasing"}
+UNIMOD_WORD = {1: "valley", 0: "none", -1: "peak"}
+CONV_WORD = {1: "convex", 0: "none", -1: "concave"}
+TRUST_WORD = {1: "positive", -1: "negative"}
+# keypoint gaps down to 2e-4 (neighbouring quantile keypoints): equal_slopes
+# then has heights of very different sizes
+SPACINGS_FINE = [2e-4, 1e-3, 1e-2, 0.5, 1.0, 1.0, 3.0, 100.0]
+
+# Candidate-defect regions (see the widening report): configurations the
+# library accepts but whose fresh linear / random-monotonic kernel does not
+# satisfy the configured trust / dominance constraint.  Kept out of the
+# generator so that the check is quiet.
+GEN_TZ_MONOTONE_COND = True     # trapezoid trust whose conditional dim is monotone
+GEN_MDOM_LARGER_DOMINANT = True  # monotonic dominance, dominant size > weak size
+GEN_TRUST_RANDOM_INIT = True    # trusts/dominances + random_monotonic_initializer
+
+
+def spell_vector(v, spell, words):
+  """List/tuple of ints or documented strings for an int vector."""
+  v = [int(x) for x in v]
+  if spell == "strings":
+    return [words[x] for x in v]
+  if spell == "tuple":
+    return tuple(v)
+  if spell == "mixed":
+    return [words[x] if i % 2 == 0 else x for i, x in enumerate(v)]
+  return list(v)
 
 
 # ------------------------------------------------------------------ strategy
@@ -119,6 +182,71 @@ def _explicit_range(draw, omin, omax):
   return [S.f32(a), S.f32(b)]
 
 
+def _shrink_to(sizes, floor, limit):
+  """Reduces the largest reducible sizes until prod(sizes) <= limit."""
+  sizes = list(sizes)
+  while int(np.prod(sizes)) > limit:
+    cand = [i for i in range(len(sizes)) if sizes[i] > floor[i]]
+    if not cand:
+      break
+    i = max(cand, key=lambda j: sizes[j])
+    sizes[i] -= 1
+  return sizes
+
+
+@st.composite
+def _trusts(draw, sizes, mono, init_random):
+  """Trust / dominance / joint-monotonicity constraints that the documented
+  linear initialisation (an additive function with equal total rise per
+  monotone dimension, constant along the others) satisfies: Edgeworth trust
+  with equality; trapezoid trust when the conditional dimension is not
+  monotone (equality); range dominance (equality); monotonic dominance when
+  the dominant dimension has at most as many vertices as the weak one; joint
+  monotonicity of any two dimensions."""
+  n = len(sizes)
+  mono_dims = [d for d in range(n) if mono[d]]
+  mains = [d for d in mono_dims if draw(st.booleans())] or [mono_dims[0]]
+  conds = [d for d in range(n) if d not in mains]
+  tz_pool = conds if GEN_TZ_MONOTONE_COND else [d for d in conds
+                                                if not mono[d]]
+  t = {"ew": [], "tz": [], "mdom": [], "rdom": [], "jmono": []}
+  fams = draw(st.lists(st.sampled_from(["ew", "tz", "mdom", "rdom", "jmono"]),
+                       min_size=1, max_size=3, unique=True))
+  dirs = {}
+  for fam in fams:
+    pool = conds if fam == "ew" else tz_pool
+    if fam in ("ew", "tz") and pool:
+      for _ in range(draw(st.integers(1, 2))):
+        m, c = draw(st.sampled_from(mains)), draw(st.sampled_from(pool))
+        dr = draw(st.sampled_from([-1, 1]))
+        dr = dirs.setdefault((m, c), dr)
+        if [m, c, dr] not in t[fam]:
+          t[fam].append([m, c, dr])
+    elif fam == "rdom" and len(mono_dims) >= 2:
+      sub = draw(S.dag_pairs(len(mono_dims), max_edges=2,
+                             allow_duplicates=False))
+      t["rdom"] = [[mono_dims[a], mono_dims[b]] for a, b in sub]
+    elif fam == "mdom" and len(mono_dims) >= 2:
+      order = (list(draw(st.permutations(mono_dims)))
+               if GEN_MDOM_LARGER_DOMINANT else
+               sorted(mono_dims, key=lambda d: (sizes[d], d)))
+      for _ in range(draw(st.integers(1, 2))):
+        a = draw(st.integers(0, len(order) - 2))
+        b = draw(st.integers(a + 1, len(order) - 1))
+        if [order[a], order[b]] not in t["mdom"]:
+          t["mdom"].append([order[a], order[b]])
+    elif fam == "jmono":
+      for _ in range(draw(st.integers(1, 2))):
+        a = draw(st.integers(0, n - 1))
+        b = draw(st.integers(0, n - 2))
+        b = b if b < a else b + 1
+        if [a, b] not in t["jmono"] and [b, a] not in t["jmono"]:
+          t["jmono"].append([a, b])
+  if not any(t.values()):
+    t["jmono"].append([0, 1])
+  return t
+
+
 @st.composite
 def _lattice_case(draw, tier):
   big = tier == "thorough"
@@ -126,15 +254,29 @@ def _lattice_case(draw, tier):
                                max_size=6 if big else 4,
                                max_weights=2048 if big else 256))
   shape = draw(st.sampled_from(["mono_only", "mono_only", "mono_only", "unimod",
-                                "unimod", "unimod", "free", "junimod_all"]))
+                                "unimod", "unimod", "free", "junimod_all",
+                                "mono_trust", "mono_trust"]))
   n = len(sizes)
   mono, unimod, junimod = [0] * n, [0] * n, []
+  trusts = None
   if shape == "junimod_all":
     sizes = [max(3, s) for s in sizes[:3]]
     n = len(sizes)
+    if draw(st.booleans()):
+      # one long dimension: the unimodal profile has interior points
+      sizes[draw(st.integers(0, n - 1))] = draw(st.integers(5, 7))
     mono, unimod = [0] * n, [0] * n
     junimod = [[list(draw(st.permutations(list(range(n))))),
                 draw(st.sampled_from(["valley", "peak"]))]]
+  elif shape == "mono_trust":
+    if n < 2:
+      sizes = sizes + [draw(st.integers(2, 4))]
+      n = 2
+    mono = [draw(st.sampled_from([1, 1, 0])) for _ in range(n)]
+    if not any(mono):
+      mono[draw(st.integers(0, n - 1))] = 1
+    unimod = [0] * n
+    trusts = draw(_trusts(sizes, mono, False))
   elif shape != "free":
     mm = draw(st.sampled_from(["all", "some", "some"] if shape == "mono_only"
                               else ["some", "some", "none"]))
@@ -159,27 +301,44 @@ def _lattice_case(draw, tier):
           joint_pool.append(d)
       if not any(unimod) and not joint_pool:
         unimod[cand[0]] = draw(st.sampled_from([-1, 1]))
+      shaped = [d for d in cand if unimod[d] or d in joint_pool]
       while joint_pool:
         k = draw(st.integers(1, len(joint_pool)))
         junimod.append([joint_pool[:k],
                         draw(st.sampled_from(["valley", "peak"]))])
         joint_pool = joint_pool[k:]
+      if draw(st.booleans()):
+        # one long unimodal dimension (5-7 vertices): the documented profile
+        # has interior points and, for odd sizes, a single extreme vertex
+        d = draw(st.sampled_from(shaped))
+        sizes[d] = draw(st.integers(5, 7))
+        floor = [sizes[i] if i == d else 3 if i in shaped else 2
+                 for i in range(n)]
+        sizes = _shrink_to(sizes, floor, 2048 if big else 512)
   omin, omax = draw(_bounds())
-  init_id = draw(st.sampled_from(
-      ["linear_initializer", "linear_initializer", "LinearInitializer",
-       "random_monotonic_initializer", "random_monotonic_initializer",
-       "RandomMonotonicInitializer", "default", "default"]))
+  ids = ["linear_initializer", "linear_initializer", "LinearInitializer",
+         "random_monotonic_initializer", "random_monotonic_initializer",
+         "RandomMonotonicInitializer", "default", "default"]
+  if trusts is not None and not GEN_TRUST_RANDOM_INIT:
+    ids = [i for i in ids if i not in RANDOM_IDS]
+  init_id = draw(st.sampled_from(ids))
   via = draw(st.sampled_from(["none", "none", "none", "create", "class"]))
   if (_SKIP_SUSPECTS and init_id == "default" and len(junimod) == 1 and
       len(junimod[0][0]) == n):
     init_id = "linear_initializer"
   cfg = {"sizes": [int(s) for s in sizes], "mono": mono, "unimod": unimod,
          "junimod": junimod, "omin": omin, "omax": omax}
+  if trusts is not None:
+    cfg.update(trusts)
   return {"kind": "lattice", "cfg": cfg, "shape": shape,
           "units": draw(st.sampled_from([1, 1, 2, 3])),
           "init_id": init_id, "via": via,
           "init": draw(_explicit_range(omin, omax)) if via != "none" else None,
           "none_spelling": draw(st.booleans()),
+          "mono_spell": draw(st.sampled_from(VEC_SPELLS)),
+          "unimod_spell": draw(st.sampled_from(VEC_SPELLS)),
+          "trust_spell": draw(st.sampled_from(["ints", "strings"])),
+          "default_id": draw(st.sampled_from(DEFAULT_ID_SPELLS)),
           "iters": draw(st.sampled_from([0, 1, 10])),
           "strict": draw(st.booleans()),
           "seed": draw(S.seeds)}
@@ -187,8 +346,10 @@ def _lattice_case(draw, tier):
 
 @st.composite
 def _pwl_case(draw, tier):
+  fine = draw(st.booleans())
   cfg = draw(S.pwl_config(max_k=16 if tier == "thorough" else 8,
-                          iters=(0, 1, 8)))
+                          max_units=5, iters=(0, 1, 8),
+                          spacings=SPACINGS_FINE if fine else None))
   omin, omax = draw(_bounds(modes=("none", "min", "max", "both", "both",
                                    "both", "both", "both")))
   if omin is not None and omax is not None and draw(st.integers(0, 11)) == 0:
@@ -200,12 +361,32 @@ def _pwl_case(draw, tier):
   cfg["clamp_max"] = bool(mono != 0 and omax is not None and
                           draw(st.booleans()))
   init = draw(st.sampled_from(["equal_heights", "equal_slopes"]))
-  return {"kind": "pwl", "cfg": cfg, "init_id": init, "seed": draw(S.seeds)}
+  # the initializer by name (the layer derives its range from the bounds) or
+  # as a UniformOutputInitializer object with an explicit range inside the
+  # bounds (a clamped bound is part of the range)
+  via = draw(st.sampled_from(["name", "name", "object"]))
+  rng = None
+  if via == "object":
+    rng = draw(_explicit_range(omin, omax))
+    if omin is not None and (cfg["clamp_min"] or omin == omax):
+      rng[0] = omin
+    if omax is not None and (cfg["clamp_max"] or omin == omax):
+      rng[1] = omax
+  kp_type = "fixed"
+  if cfg["conv"] == 0 and draw(st.integers(0, 2)) == 0:
+    kp_type = "learned_interior"     # only valid without convexity
+  return {"kind": "pwl", "cfg": cfg, "init_id": init, "via": via, "init": rng,
+          "kp_container": draw(st.sampled_from(
+              ["list", "list", "tuple", "ndarray32", "ndarray64"])),
+          "kp_type": kp_type, "fine": fine,
+          "mono_spell": draw(st.sampled_from(["int", "int", "string"])),
+          "conv_spell": draw(st.sampled_from(["int", "int", "string"])),
+          "seed": draw(S.seeds)}
 
 
 @st.composite
 def _kfl_case(draw, tier):
-  cfg = draw(kfl_config(tier))
+  cfg = draw(kfl_config(tier, wide=True))
   via = draw(st.sampled_from(["none", "none", "none", "create", "class"]))
   init = None
   if via != "none":
@@ -215,24 +396,36 @@ def _kfl_case(draw, tier):
         [[0.5, 1.5], [0.0, 3.0], [1.0, 2.0], [0.1, 0.2]]))
     init = S.f32(init)
   return {"kind": "kfl", "cfg": cfg, "via": via, "init": init,
+          # initializer ids passed by name (None = argument left out)
+          "kernel_id": draw(st.sampled_from(
+              [None, None, "kfl_random_monotonic_initializer",
+               "KFLRandomMonotonicInitializer"])),
+          "scale_id": draw(st.sampled_from(
+              [None, None, "scale_initializer", "ScaleInitializer"])),
+          "init_seed_arg": draw(st.sampled_from([None, 0, 7, 12345])),
           "seed": draw(S.seeds)}
 
 
 @st.composite
 def _cat_case(draw, tier):
   nb = draw(st.integers(2, 10 if tier == "thorough" else 6))
-  omin, omax = draw(_bounds(modes=("none", "min", "max", "both", "both",
+  omin, omax = draw(_bounds(modes=("none", "min", "max", "min", "max", "both",
                                    "both", "both")))
-  pairs = draw(S.dag_pairs(nb, max_edges=3, allow_duplicates=False)) if draw(
-      st.integers(0, 2)) == 0 else []
-  init = draw(st.sampled_from(["uniform", "uniform", "constant"]))
+  pairs = draw(S.dag_pairs(nb, max_edges=6, allow_duplicates=False)) if draw(
+      st.booleans()) else []
+  # 'keras-object': any Keras initializer object is documented; the layer
+  # passes the initial value through its constraint
+  init = draw(st.sampled_from(["uniform", "uniform", "constant",
+                               "keras-object"]))
   return {"kind": "cat", "num_buckets": nb,
           "units": draw(st.sampled_from([1, 1, 2, 3])), "omin": omin,
           "omax": omax, "pairs": pairs, "init_id": init,
+          "pair_container": draw(st.sampled_from(["tuple", "tuple", "list"])),
+          "default_input_value": draw(st.sampled_from([None, None, -1, 99])),
           "seed": draw(S.seeds)}
 
 
-KIND_MIX = ["lattice"] * 9 + ["pwl"] * 4 + ["kfl"] * 3 + ["cat"] * 2
+KIND_MIX = ["lattice"] * 9 + ["pwl"] * 4 + ["kfl"] * 3 + ["cat"] * 3
 
 
 @st.composite
@@ -347,6 +540,15 @@ def _check_unchanged(var, out, tag, what, **sig):
 
 
 # ---------------------------------------------------------------- Lattice
+TRUST_KEYS = (("ew", "edgeworth_trusts"), ("tz", "trapezoid_trusts"),
+              ("mdom", "monotonic_dominances"), ("rdom", "range_dominances"),
+              ("jmono", "joint_monotonicities"))
+
+
+def _has_trusts(cfg):
+  return any(cfg.get(k) for k, _ in TRUST_KEYS)
+
+
 def _build_lattice(case):
   import tensorflow as tf
   import tensorflow_lattice as tfl
@@ -354,34 +556,48 @@ def _build_lattice(case):
   cfg = case["cfg"]
   sizes, n = list(cfg["sizes"]), len(cfg["sizes"])
   none_ok = case["none_spelling"]
-  mono = None if (none_ok and not any(cfg["mono"])) else list(cfg["mono"])
-  unimod = None if (none_ok and not any(cfg["unimod"])) else list(
-      cfg["unimod"])
+  mspell = case.get("mono_spell", "ints")
+  uspell = case.get("unimod_spell", "ints")
+  mono = None if (none_ok and not any(cfg["mono"])) else spell_vector(
+      cfg["mono"], mspell, MONO_WORD)
+  unimod = None if (none_ok and not any(cfg["unimod"])) else spell_vector(
+      cfg["unimod"], uspell, UNIMOD_WORD)
   junimod = [(tuple(d), s) for d, s in cfg["junimod"]] or None
   kw = dict(lattice_sizes=sizes, units=case["units"], monotonicities=mono,
             unimodalities=unimod, joint_unimodalities=junimod,
             output_min=cfg["omin"], output_max=cfg["omax"],
             num_projection_iterations=case["iters"],
             monotonic_at_every_step=case["strict"])
+  words = case.get("trust_spell", "ints") == "strings"
+  for key, name in TRUST_KEYS:
+    if cfg.get(key):
+      kw[name] = [tuple(t[:2]) + ((TRUST_WORD[t[2]] if words else t[2]),)
+                  if len(t) == 3 else tuple(t) for t in cfg[key]]
   iid, via = case["init_id"], case["via"]
-  lib_id = "random_uniform_or_linear_initializer" if iid == "default" else iid
+  default_id = case.get("default_id", "omit")
+  lib_id = iid
+  if iid == "default":
+    lib_id = ("random_uniform_or_linear_initializer" if default_id == "omit"
+              else default_id)
   if via == "none":
     if iid != "default":
       kw["kernel_initializer"] = iid
+    elif default_id != "omit":
+      kw["kernel_initializer"] = default_id
   elif via == "create":
     kw["kernel_initializer"] = ll.create_kernel_initializer(
         lib_id, sizes, mono, cfg["omin"], cfg["omax"], unimod, junimod,
         init_min=case["init"][0], init_max=case["init"][1])
   else:
-    allu = [{"flat": 0, "mono": 0, "valley": 1, "peak": -1}[k]
-            for k in dim_kinds(cfg)]
+    allu = spell_vector([{"flat": 0, "mono": 0, "valley": 1, "peak": -1}[k]
+                         for k in dim_kinds(cfg)], uspell, UNIMOD_WORD)
     if iid in RANDOM_IDS:
       kw["kernel_initializer"] = ll.RandomMonotonicInitializer(
           sizes, case["init"][0], case["init"][1], unimodalities=allu)
     else:
       kw["kernel_initializer"] = ll.LinearInitializer(
-          sizes, list(cfg["mono"]), case["init"][0], case["init"][1],
-          unimodalities=allu)
+          sizes, spell_vector(cfg["mono"], mspell, MONO_WORD),
+          case["init"][0], case["init"][1], unimodalities=allu)
   layer = tfl.layers.Lattice(**kw)
   layer.build(tf.TensorShape((None, n) if case["units"] == 1 else
                              (None, case["units"], n)))
@@ -424,6 +640,31 @@ def _run_lattice(case, out):
     out.label("lattice:bounds=min>=1-alone")
   if omax is not None and omax <= 0:
     out.label("lattice:negative-range")
+  if 0.0 in (omin, omax):
+    out.label("lattice:a-bound-is-0")
+  spells = set()
+  if any(cfg["mono"]) or not case["none_spelling"]:
+    spells.add(case.get("mono_spell", "ints"))
+  if any(cfg["unimod"]) or not case["none_spelling"] or case["via"] == "class":
+    spells.add(case.get("unimod_spell", "ints"))
+  for sp in sorted(spells - {"ints"}):
+    out.label("lattice:spelling=" + sp)
+  if case["init_id"] == "default" and case["via"] != "class" and case.get(
+      "default_id", "omit") != "omit":
+    out.label("lattice:default-id-by-name=" + case["default_id"])
+  shaped_dims = [d for d, k in enumerate(dim_kinds(cfg))
+                 if k in ("valley", "peak")]
+  if any(sizes[d] >= 5 for d in shaped_dims):
+    out.label("lattice:unimodal-dim-size>=5",
+              "lattice:unimodal-dim-size=%s" % (
+                  "odd" if any(sizes[d] in (5, 7) for d in shaped_dims)
+                  else "even"))
+  for key, _ in TRUST_KEYS:
+    if cfg.get(key):
+      out.label("lattice:trust=" + key)
+  if _has_trusts(cfg) and case.get("trust_spell") == "strings" and (
+      cfg.get("ew") or cfg.get("tz")):
+    out.label("lattice:trust-direction-as-string")
   sig = dict(layer="lattice", init="default" if case["init_id"] == "default"
              else fam)
   if fam == "keras-uniform":
@@ -507,10 +748,39 @@ def _run_lattice(case, out):
     out.violate("fresh kernel range [%r, %r] is outside the output bounds "
                 "[%r, %r]" % (float(kern.min()), float(kern.max()), omin,
                               omax), kind="bounds", **sig)
+  if _has_trusts(cfg):
+    # float64 reference of the configured trust / dominance / joint
+    # monotonicity inequalities (vlib.oracles rows), per unit
+    full = dict(cfg)
+    worst = {}
+    for u in range(units):
+      for famname, v in R.violation_by_family(
+          full, kern[u], families=["ew", "tz", "mdom", "rdom", "jmono"]).items():
+        if famname != "bounds":
+          worst[famname] = max(worst.get(famname, 0.0), v)
+    for famname in sorted(worst):
+      out.checks += 1
+      if worst[famname] > TOL_W * s_w:
+        ok = False
+        # mechanism of finding F-C10-5: the lattice initializers do not look at
+        # trusts / dominances.  The linear one breaks a trapezoid trust whose
+        # conditional dimension is monotone and a monotonic dominance whose
+        # dominant dimension has more vertices than the weak one; the random
+        # monotonic one may break any of them.
+        ignored = bool(
+            fam == "random" or
+            (famname == "tz" and any(cfg["mono"][c] for _, c, _ in cfg["tz"]))
+            or (famname == "mdom" and any(
+                sizes[a] > sizes[b] for a, b in cfg["mdom"])))
+        out.violate("fresh kernel violates the configured %s constraint by "
+                    "%.3g (sizes %s, monotonicities %s, %s=%s)" % (
+                        famname, worst[famname], sizes, cfg["mono"], famname,
+                        cfg.get(famname)), kind="trust", family=famname,
+                    initializer_ignores_constraint=ignored, **sig)
   if not ok:
     return
   _call_assert(layer, out, s_w, "lattice", **sig)
-  if not any(cfg["unimod"]) and not cfg["junimod"]:
+  if not any(cfg["unimod"]) and not cfg["junimod"] and not _has_trusts(cfg):
     _check_unchanged(layer.kernel, out, "lattice", "kernel", **sig)
 
 
@@ -531,8 +801,44 @@ def _run_pwl(case, out):
     if flag:
       out.label("pwl:" + name)
   sig = dict(layer="pwl", init=init, cyclic=bool(cyc))
-  layer = tfl.layers.PWLCalibration(kernel_initializer=init,
-                                    **S.pwl_layer_kwargs(cfg))
+  kw = S.pwl_layer_kwargs(cfg)
+  container = case.get("kp_container", "list")
+  kp_arg = {"list": list, "tuple": tuple,
+            "ndarray32": lambda v: np.asarray(v, np.float32),
+            "ndarray64": lambda v: np.asarray(v, np.float64)}[container](
+                cfg["keypoints"])
+  kw["input_keypoints"] = kp_arg
+  kp_type = case.get("kp_type", "fixed")
+  if kp_type != "fixed":
+    kw["input_keypoints_type"] = kp_type
+  mono_arg = MONO_WORD[mono] if case.get("mono_spell") == "string" else mono
+  kw["monotonicity"] = mono_arg
+  if case.get("conv_spell") == "string":
+    kw["convexity"] = CONV_WORD[cfg["conv"]]
+  via = case.get("via", "name")
+  if via == "object":
+    from tensorflow_lattice.python import pwl_calibration_layer as pl
+    kw["kernel_initializer"] = pl.UniformOutputInitializer(
+        output_min=case["init"][0], output_max=case["init"][1],
+        monotonicity=mono_arg,
+        keypoints=None if init == "equal_heights" else (
+            kp_arg[:-1] if cyc else kp_arg))
+  else:
+    kw["kernel_initializer"] = init
+  out.label("pwl:via=" + via, "pwl:units=%d" % units)
+  if container != "list":
+    out.label("pwl:keypoints-as=" + container)
+  if kp_type != "fixed":
+    out.label("pwl:" + kp_type)
+  if case.get("mono_spell") == "string" or case.get("conv_spell") == "string":
+    out.label("pwl:spelling=strings")
+  if float(np.min(np.diff(kp))) < 5e-3:
+    out.label("pwl:keypoint-gap<5e-3")
+    if init == "equal_slopes":
+      out.label("pwl:keypoint-gap<5e-3,equal_slopes")
+  if 0.0 in (omin, omax):
+    out.label("pwl:a-bound-is-0")
+  layer = tfl.layers.PWLCalibration(**kw)
   layer.build(tf.TensorShape((None, units)))
   k32 = layer.kernel.numpy()
   kern = k32.astype(np.float64)
@@ -542,7 +848,8 @@ def _run_pwl(case, out):
     out.violate("fresh kernel has shape %s / non-finite values" %
                 (kern.shape,), kind="finite", **sig)
     return
-  a, b = pwl_init_bounds(omin, omax)
+  a, b = (tuple(case["init"]) if case.get("via") == "object" else
+          pwl_init_bounds(omin, omax))
   out.nontrivial = bool(b > a)
   sgn = -1.0 if mono == -1 else 1.0
   start, end = (b, a) if mono == -1 else (a, b)
@@ -613,23 +920,44 @@ def _run_kfl(case, out):
   cfg = case["cfg"]
   size, d, units = cfg["size"], cfg["dims"], cfg["units"]
   omin, omax = cfg["omin"], cfg["omax"]
-  mono = list(cfg["mono"]) if any(cfg["mono"]) else None
+  mspell = cfg.get("mono_spell", "ints")
+  mono = spell_monotonicities(cfg["mono"], mspell)
   kw = dict(lattice_sizes=size, units=units, num_terms=cfg["terms"],
             monotonicities=mono, output_min=omin, output_max=omax,
             clip_inputs=cfg["clip"])
   if case["via"] == "create":
     kw["kernel_initializer"] = kl.create_kernel_initializer(
-        "kfl_random_monotonic_initializer", mono, omin, omax,
-        init_min=case["init"][0], init_max=case["init"][1])
+        case.get("kernel_id") or "kfl_random_monotonic_initializer", mono,
+        omin, omax, init_min=case["init"][0], init_max=case["init"][1])
   elif case["via"] == "class":
     kw["kernel_initializer"] = kl.KFLRandomMonotonicInitializer(
-        mono, init_min=case["init"][0], init_max=case["init"][1])
+        mono, init_min=case["init"][0], init_max=case["init"][1],
+        seed=case.get("init_seed_arg"))
+  elif case.get("kernel_id"):
+    kw["kernel_initializer"] = case["kernel_id"]
+  if case.get("scale_id"):
+    kw["scale_initializer"] = case["scale_id"]
   layer = tfl.layers.KroneckerFactoredLattice(**kw)
-  layer.build(tf.TensorShape((None, d) if units == 1 else (None, units, d)))
-  out.label("kfl", "kfl:mono=%s" % ("none" if mono is None else
+  build_kfl(layer, cfg)
+  out.label("kfl", "kfl:mono=%s" % ("none" if not any(cfg["mono"]) else
                                     "all" if all(cfg["mono"]) else "some"),
             "kfl:bounds=" + _bounds_label(omin, omax), "kfl:via=" + case["via"],
-            "kfl:terms=%d" % cfg["terms"], "kfl:units=%d" % units)
+            "kfl:terms=%d" % cfg["terms"], "kfl:units=%d" % units,
+            "kfl:size=%d" % size, "kfl:dims=%d" % d,
+            "kfl:input=" + cfg.get("xfmt", "tensor"))
+  if mspell != "ints":
+    out.label("kfl:spelling=" + mspell)
+  if case.get("kernel_id") and case["via"] != "class":
+    out.label("kfl:kernel-id-by-name=" + case["kernel_id"])
+  if case.get("scale_id"):
+    out.label("kfl:scale-id-by-name=" + case["scale_id"])
+  if case["via"] == "class" and case.get("init_seed_arg") is not None:
+    out.label("kfl:initializer-seed-argument")
+  if units > 1 and cfg.get("unit_shuffle"):
+    out.label("kfl:units-get-different-points")
+  if omin is not None and omax is not None and omax - omin < 0.01:
+    out.label("kfl:bounds-width=1e-3")
+  mono = mono if any(cfg["mono"]) else None
   sig = dict(layer="kfl", bounds=_bounds_label(omin, omax),
              mono=bool(mono))
   out.nontrivial = bool(mono or omin is not None or omax is not None)
@@ -652,9 +980,13 @@ def _run_kfl(case, out):
   # the function on the full half-integer grid
   pts = np.array(list(itertools.product(
       *[np.arange(0, size - 0.5, 0.5)] * d)), np.float32)
-  x = pts if units == 1 else np.repeat(pts[:, None, :], units, axis=1)
-  yv = layer(tf.constant(x)).numpy().astype(np.float64)
+  inp, restore = format_inputs(cfg, pts)
   out.checks += 3
+  try:
+    yv = restore(layer(inp).numpy())
+  except OutputShape as e:
+    out.violate(str(e), kind="finite", **sig)
+    return
   if yv.shape != (len(pts), units) or not np.all(np.isfinite(yv)):
     out.violate("fresh layer output has shape %s / non-finite values" %
                 (yv.shape,), kind="finite", **sig)
@@ -690,14 +1022,32 @@ def _run_cat(case, out):
   nb, units = case["num_buckets"], case["units"]
   omin, omax, pairs = case["omin"], case["omax"], case["pairs"]
   init = case["init_id"]
-  layer = tfl.layers.CategoricalCalibration(
-      num_buckets=nb, units=units, output_min=omin, output_max=omax,
-      monotonicities=[tuple(p) for p in pairs] or None,
-      kernel_initializer=init)
+  as_list = case.get("pair_container") == "list"
+  kw = dict(num_buckets=nb, units=units, output_min=omin, output_max=omax,
+            monotonicities=[list(p) if as_list else tuple(p)
+                            for p in pairs] or None)
+  if init == "keras-object":
+    import tf_keras as keras
+    lo_b, hi_b = default_range(omin, omax)
+    kw["kernel_initializer"] = keras.initializers.RandomUniform(
+        lo_b - 1.0, hi_b + 1.0, seed=case["seed"] % 1000)
+  else:
+    kw["kernel_initializer"] = init
+  if case.get("default_input_value") is not None:
+    kw["default_input_value"] = case["default_input_value"]
+  layer = tfl.layers.CategoricalCalibration(**kw)
   layer.build(tf.TensorShape((None, units)))
   bl = _bounds_label(omin, omax)
   out.label("cat", "cat:" + init, "cat:bounds=" + bl,
             "cat:pairs" if pairs else "cat:no-pairs")
+  if pairs:
+    out.label("cat:pairs,init=%s,bounds=%s" % (init, bl))
+    if len(pairs) >= 4:
+      out.label("cat:pairs>=4")
+  if case.get("default_input_value") is not None:
+    out.label("cat:default_input_value")
+  if 0.0 in (omin, omax):
+    out.label("cat:a-bound-is-0")
   sig = dict(layer="categorical", init=init, bounds=bl)
   kern = layer.kernel.numpy().astype(np.float64)
   out.nontrivial = bool((pairs or bl != "none") and (
